@@ -402,6 +402,18 @@ func runC17(r *core.Run) {
 		m.End(stats.States, stats.Transitions)
 	}
 
+	bufferReuse(r, append(enum.AllStrings("ACGT", 3), "GATTACCA", "GATTGCCA", "acgtnNACGT", "TTTTTTTT", "GATTAC"), []string{"Sequences n=2 k=2", "Sequences n=5 k=1", "Sequences n=3 k=3", "Add+Add n=4 k=2"},
+		func(fn string, in []byte) string {
+			var n, k int
+			if _, err := fmt.Sscanf(fn, "Sequences n=%d k=%d", &n, &k); err == nil {
+				return fmt.Sprint(mash.Sequences(n, k, in).View())
+			}
+			mh := mash.Sequences(4, 2)
+			mash.Add(mh, 2, in)
+			mash.Add(mh, 2, in)
+			return fmt.Sprint(mh.View())
+		})
+
 	// Distance laws on all pairs of full sketches
 	dpool := [][]string{{"ACGTAC"}, {"GTACGT"}, {"ACGTACGG"}, {"TTTTAAAACC"}, {"GGGGCCCC"}, {"ACGTTGCATG"}, {"CATGCAACGT"}, {"AAAAAAAA", "CC"}, {"GATTACAGATTACA"}, {"tgtaatctgtaatc"}, {"ACACACAC", "GTGTGTGT"}, {"CAGTCAGTNNACGT"}}
 	core.Clause(r, "distance-laws", core.Opts{Rule: "all ordered pairs of inputs from a pool of 12 x k in {1,2,3} x n in {1,2,3,5}; only pairs where both sketches are full: each pair as live sketches, as Frozen() copies and mixed, and each sketch with itself: Distance symmetric, within [0,1], 0 for identical k-mer content, equal (<=1e-12) to min(1,-ln(2j/(1+j))/k) with j computed by brute force from the two bottom-n sets (1 when j=0); non-trivial = all evaluated pairs"},
